@@ -72,7 +72,7 @@ func drawC11(t *rapid.T) c11Case {
 	}
 	if rapid.IntRange(0, 3).Draw(t, "withOwn") == 0 {
 		c.Locked, c.Strace = true, false
-		c.Own = []string{"prior-no-nnp", "prior-nnp", "prctl-denied", "seccomp-enosys", "strict-probe-denied", "seccomp-einval-log", "seccomp-einval-log"}[rapid.IntRange(0, 6).Draw(t, "own")]
+		c.Own = []string{"prior-no-nnp", "prior-nnp", "prctl-denied", "seccomp-enosys", "strict-probe-denied", "seccomp-einval-log", "seccomp-einval-log", "action-avail-denied"}[rapid.IntRange(0, 7).Draw(t, "own")]
 		if c.Own != "prior-nnp" {
 			c.Uid = 0
 		}
@@ -141,6 +141,12 @@ func checkC11(raw json.RawMessage) (ev.Result, error) {
 		// as root and without touching the bit: an enclosing filter refuses seccomp(SECCOMP_SET_MODE_STRICT) - a support
 		// probe would say "unsupported" - while filters can be installed normally. A requested bit must be set all the same.
 		job.Steps = append(job.Steps, kjob.Step{Op: "outer-deny-strict-thread", Thread: 0})
+	case "action-avail-denied":
+		// as root and without touching the bit: an enclosing filter refuses seccomp(SECCOMP_GET_ACTION_AVAIL) - a kernel
+		// before 4.14, or a container profile that knows the two install operations only - and the policy uses the log
+		// action, the one a loader might ask the kernel about. Filters install normally; a requested bit is set all the same.
+		job.Steps = append(job.Steps, kjob.Step{Op: "outer-deny-avail-thread", Thread: 0})
+		loadPolicy = spec.Policy{Arch: "x86_64", Default: actAllow, Groups: []spec.Group{{Action: actErrno, Names: []string{"getppid"}}, {Action: actLog, Names: []string{"getuid"}}}}
 	case "seccomp-enosys":
 		// as root and without touching the bit: on the calling thread seccomp(2) answers ENOSYS (old kernel, container
 		// profile). Nothing can be installed through it; the bit must not be set unless requested.
@@ -192,6 +198,10 @@ func checkC11(raw json.RawMessage) (ev.Result, error) {
 	case "strict-probe-denied":
 		if oe := rr.Find(stOwn, "outer-deny-strict"); len(oe) != 1 || oe[0].Err != "" {
 			return ev.Result{}, ev.Inconclusivef("could not install the filter that refuses the strict-mode probe")
+		}
+	case "action-avail-denied":
+		if oe := rr.Find(stOwn, "outer-deny-avail"); len(oe) != 1 || oe[0].Err != "" {
+			return ev.Result{}, ev.Inconclusivef("could not install the filter that refuses the action-availability probe")
 		}
 	case "seccomp-enosys":
 		if oe := rr.Find(stOwn, "outer-enosys"); len(oe) != 1 || oe[0].Err != "" {
